@@ -22,6 +22,8 @@ TrFailFast == Cfg.failfast
 TrCopies == Cfg.copies
 TrPad == Cfg.pad
 TrConcat == Cfg.concat
+TrMemT == Cfg.memt
+TrOutOvh == Cfg.outovh
 
 VARIABLE l
 tvars == <<vars, l>>
